@@ -112,6 +112,9 @@ def generate(run_seed, prop, tier="quick"):
     ctor = ctor_choice
     scenario = {"family": "sampler", "prop": prop, "run_seed": run_seed, "configs": configs, "mode": mode, "ctor": ctor, "debug_logging": env_debug_logging(run_seed),
                 "entropy": entropy, "ops": ops, "faults_enabled": sorted(k for k, v in faults.items() if v)}
+    # a host program that discards its samplers before it builds the next one (their tables are freed, and CPython
+    # hands the memory - and the id() - to whatever is built next); drawn from its own stream
+    scenario["release"] = rng_for("sampler-release", run_seed).random() < 0.35
     if prop == "C09":
         scenario["resolver_items"] = [gen_mol.build_item(rng, kind="atomistic", weights=rng.random() < 0.5,
                                                          hyper=rng.choice([(), ("S", "P", "N"), ("S", "P", "N", "exotic")]),
@@ -612,6 +615,12 @@ def run_history(scenario, only=None):
 
     def construct(idx, seed):
         cfg = sc["configs"][idx]
+        if sc.get("release"):
+            import gc
+            last_sampler.clear()
+            last_molecule.clear()
+            gc.collect()
+            stats["fault:samplers-released-before-construct:fired"] = stats.get("fault:samplers-released-before-construct:fired", 0) + 1
         kwargs = {"polymer_reactivities": materialise(copy.deepcopy(cfg["polymer_reactivities"])), "all_atom": cfg["all_atom"], "seed": seed}
         if cfg["fragment_reactivities"]:
             kwargs["fragment_reactivities"] = materialise(copy.deepcopy(cfg["fragment_reactivities"]))
